@@ -225,6 +225,7 @@ func runC11(c *Ctx) {
 	c.rule("R-EDIT-SPAN", 4, "X spans are slices of lhs, Y spans slices of rhs; span bounds use the matching side's index variables")
 	c.rule("R-EDIT-OPTABLE", 6, "Op ↔ fields as documented on every Edit literal with a constant opcode")
 	c.rule("R-OP-EXHAUSTIVE", 3, "every EditOp switch is exhaustive or has a strict default")
+	ruleSiblingGuard(c, "slice")
 
 	esf := P.Func("slice", "", "editScriptFunc")
 	es := P.Func("slice", "", "EditScript")
@@ -252,6 +253,7 @@ func runC11(c *Ctx) {
 	}
 	c.sawFn(fnName(esf))
 	lhs, rhs := esf.Params[li], esf.Params[ri]
+	ruleCursorFamilies(c, esf, lhs, rhs)
 	// direct index variables of each side
 	directIdx := map[ssa.Value]string{}
 	allInstrs(esf, func(in ssa.Instruction) {
@@ -1357,10 +1359,9 @@ func ruleSiblingGuard(c *Ctx, pkg string) {
 			roots(x.X, out, seen)
 			roots(x.Y, out, seen)
 		case *ssa.Phi:
-			out[fmt.Sprintf("φ%p", x)] = true
-			for _, e := range x.Edges {
-				roots(e, out, seen)
-			}
+			// a merged or loop-carried value is a quantity of its own: a fact about one of its inputs
+			// (the value before the loop) is not a fact about it
+			out[phiID(x)] = true
 		case *ssa.UnOp:
 			if _, f := loadedField(x); f != nil {
 				out["field "+f.Name()] = true
@@ -1378,7 +1379,7 @@ func ruleSiblingGuard(c *Ctx, pkg string) {
 		case *ssa.Extract:
 			roots(x.Tuple, out, seen)
 		default:
-			out[fmt.Sprintf("%T%p", v, v)] = true
+			out[fmt.Sprintf("%T %s", v, v.Name())] = true
 		}
 	}
 	// elem: v is an element read xs[idx] of a slice that is a struct field or a parameter;
@@ -1410,18 +1411,13 @@ func ruleSiblingGuard(c *Ctx, pkg string) {
 		if p, ok := xs.(*ssa.Parameter); ok {
 			return elemRef{"param " + p.Name(), p.Name(), idx}, true
 		}
-		if ph, ok := xs.(*ssa.Phi); ok {
-			// a parameter possibly exchanged with its sibling (as, bs = bs, as)
-			for _, e := range ph.Edges {
-				if _, isP := e.(*ssa.Parameter); !isP {
-					return elemRef{}, false
-				}
-			}
+		if ph, ok := xs.(*ssa.Phi); ok && fromParams(ph, map[ssa.Value]bool{}) {
+			// a parameter possibly exchanged with its sibling (as, bs = bs, as) or shortened in a loop
 			lbl := ph.Comment
 			if lbl == "" {
 				lbl = ph.Name()
 			}
-			return elemRef{fmt.Sprintf("φ%p", ph), lbl, idx}, true
+			return elemRef{phiID(ph), lbl, idx}, true
 		}
 		return elemRef{}, false
 	}
@@ -1564,4 +1560,183 @@ func sliceLike(t types.Type) bool {
 		return u.Info()&types.IsString != 0
 	}
 	return false
+}
+
+// fromParams: v is a parameter, or a φ / re-slice whose inputs all are.
+func fromParams(v ssa.Value, seen map[ssa.Value]bool) bool {
+	if seen[v] {
+		return true
+	}
+	seen[v] = true
+	switch x := v.(type) {
+	case *ssa.Parameter:
+		return true
+	case *ssa.Phi:
+		for _, e := range x.Edges {
+			if !fromParams(e, seen) {
+				return false
+			}
+		}
+		return true
+	case *ssa.Slice:
+		return fromParams(x.X, seen)
+	}
+	return false
+}
+
+func phiID(x *ssa.Phi) string { return "φ" + x.Comment + "#" + x.Name() }
+
+// ruleCursorFamilies: the edit-script builder walks three sequences — lhs, rhs
+// and their common subsequence — each with its own cursor.  Cursor variables
+// that flow into one another (through φ, or by adding a constant or a plain
+// counter) form a family.  A family that indexes or bounds spans of an input
+// must not also index a sequence that is neither input: a cursor of lhs that
+// is (re)started from the cursor of the common subsequence points behind or
+// ahead of the unconsumed part of lhs.
+func ruleCursorFamilies(c *Ctx, fn *ssa.Function, lhs, rhs *ssa.Parameter) {
+	parent := map[ssa.Value]ssa.Value{}
+	var find func(v ssa.Value) ssa.Value
+	find = func(v ssa.Value) ssa.Value {
+		p, ok := parent[v]
+		if !ok || p == v {
+			parent[v] = v
+			return v
+		}
+		r := find(p)
+		parent[v] = r
+		return r
+	}
+	union := func(a, b ssa.Value) { parent[find(a)] = find(b) }
+	isCounter := func(v ssa.Value) bool {
+		ph, ok := v.(*ssa.Phi)
+		if !ok {
+			return false
+		}
+		for _, e := range ph.Edges {
+			if _, isK := constInt(e); isK {
+				continue
+			}
+			if bo, ok := e.(*ssa.BinOp); ok && (bo.Op == token.ADD || bo.Op == token.SUB) && bo.X == ssa.Value(ph) {
+				if _, isK := constInt(bo.Y); isK {
+					continue
+				}
+			}
+			return false
+		}
+		return true
+	}
+	isInt := func(v ssa.Value) bool { return isIntType(v.Type()) }
+	allInstrs(fn, func(in ssa.Instruction) {
+		switch x := in.(type) {
+		case *ssa.Phi:
+			if !isInt(x) {
+				return
+			}
+			for _, e := range x.Edges {
+				if _, isK := constInt(e); !isK {
+					union(x, e)
+				}
+			}
+		case *ssa.BinOp:
+			if !isInt(x) || (x.Op != token.ADD && x.Op != token.SUB) {
+				return
+			}
+			_, xk := constInt(x.X)
+			_, yk := constInt(x.Y)
+			switch {
+			case !xk && !isCounter(x.X):
+				union(x, x.X)
+			case !yk && !isCounter(x.Y) && x.Op == token.ADD:
+				union(x, x.Y)
+			}
+		}
+	})
+	rootOf := func(v ssa.Value) string {
+		for {
+			switch x := v.(type) {
+			case *ssa.Slice:
+				v = x.X
+				continue
+			case *ssa.ChangeType:
+				v = x.X
+				continue
+			}
+			break
+		}
+		switch v {
+		case ssa.Value(lhs):
+			return "lhs"
+		case ssa.Value(rhs):
+			return "rhs"
+		}
+		if !sliceLike(v.Type()) {
+			return ""
+		}
+		return "other: " + ksym(v)
+	}
+	uses := map[ssa.Value]map[string]token.Pos{}
+	note := func(idx ssa.Value, xs ssa.Value, pos token.Pos) {
+		if idx == nil {
+			return
+		}
+		if _, isK := constInt(idx); isK {
+			return
+		}
+		r := rootOf(xs)
+		if r == "" {
+			return
+		}
+		f := find(idx)
+		if uses[f] == nil {
+			uses[f] = map[string]token.Pos{}
+		}
+		if _, ok := uses[f][r]; !ok {
+			uses[f][r] = pos
+		}
+	}
+	allInstrs(fn, func(in ssa.Instruction) {
+		switch x := in.(type) {
+		case *ssa.IndexAddr:
+			note(x.Index, x.X, x.Pos())
+		case *ssa.Index:
+			note(x.Index, x.X, x.Pos())
+		case *ssa.Slice:
+			note(x.Low, x.X, x.Pos())
+			note(x.High, x.X, x.Pos())
+		}
+	})
+	n := 0
+	var fams []ssa.Value
+	for f := range uses {
+		fams = append(fams, f)
+	}
+	sort.Slice(fams, func(i, j int) bool { return fams[i].Pos() < fams[j].Pos() })
+	for _, f := range fams {
+		u := uses[f]
+		_, l := u["lhs"]
+		_, r := u["rhs"]
+		if !l && !r {
+			continue
+		}
+		n++
+		side := "lhs"
+		if !l {
+			side = "rhs"
+		}
+		key := fmt.Sprintf("%s:cursor family of %s #%d", fnName(fn), side, n)
+		var foreign []string
+		var pos token.Pos
+		for k, p := range u {
+			if strings.HasPrefix(k, "other: ") {
+				foreign = append(foreign, strings.TrimPrefix(k, "other: "))
+				pos = p
+			}
+		}
+		sort.Strings(foreign)
+		if len(foreign) > 0 {
+			c.bad("R-EDIT-SPAN", key, pos, fmt.Sprintf("a cursor that walks %s shares its value flow with the cursor that indexes %v (neither input): positions in the common subsequence are used as positions in %s, so spans already consumed can be emitted again", side, foreign, side))
+		} else {
+			c.ok("R-EDIT-SPAN", key, f.Pos(), "indexes the inputs only")
+		}
+	}
 }
